@@ -5,7 +5,7 @@ from ..core import rule
 from ..index import AnalysisError, dotted, src, walk_no_nested, names_in, dump
 from ..cfg import CFG, const_env_step, eval3, UNK
 from ..domains import linform, Lin, check_pred
-from ..util import node_calls, last_name, own_expr, func_cfg, stmt_of
+from ..util import outcomes_by_case, node_calls, last_name, own_expr, func_cfg, stmt_of
 from .slots import MOLITER, MOLECULE
 
 FN = 'MoleculeIterator.__iter__'
@@ -385,16 +385,19 @@ def r4(ctx):
              key='position-provenance')
     # the predicate
     g = ctx.fn(MOLECULE, 'Molecule.can_be_yielded')
-    rets = [s for s in walk_no_nested(g) if isinstance(s, ast.Return)]
-    last = g.body[-1]
-    if not isinstance(last, ast.Return) or last.value is None:
-        raise AnalysisError('can_be_yielded: last statement is not a return')
     pos = g.args.args[2].arg
     chrom = g.args.args[1].arg
     roles = {}
 
     def atom(n):
-        lf = linform(n)
+        if isinstance(n, ast.Compare):
+            return None
+        try:
+            lf = linform(n)
+        except Exception:
+            return None
+        if lf is None:
+            return None
         if lf == Lin({pos: 1}):
             return 'pos'
         c = dict(lf.coef)
@@ -407,44 +410,36 @@ def r4(ctx):
             roles['hi'] = (other, c[other])
             return 'hi'
         return None
-    try:
-        ncase, bad = check_pred(last.value, lambda e: e['pos'] < e['lo'] or e['pos'] > e['hi'], symbols=['pos', 'lo', 'hi'],
-                                constraint=lambda e: e['lo'] <= e['hi'], atom_name=atom)
-    except AnalysisError as ex:
-        ctx.emit('C07-R4', False, MOLECULE, last, f'can_be_yielded return expression not interpretable: {ex}', key='can_be_yielded:predicate', undecided=True)
-        return
+    # decision procedure evaluated on every ordering of (pos, spanStart - m, spanEnd + m) for a known position on the molecule's contig,
+    # whatever the shape of the function (single return expression, if/elif chain, early returns)
+    from ..domains import assignments
+    cases = list(assignments(['pos', 'lo', 'hi'], (0, 1, 2), (), lambda e: e['lo'] <= e['hi']))
+    bad = []
+    same = {f'{chrom} is None': False, f'{chrom} != self.chromosome': False, f'self.chromosome != {chrom}': False, f'{chrom} == self.chromosome': True, f'self.chromosome == {chrom}': True}
+    for case, outs in outcomes_by_case(g.body, cases, atom, facts=same):
+        want = case['pos'] < case['lo'] or case['pos'] > case['hi']
+        got = {v for k, v in outs if k == 'return'}
+        if {bool(v) if isinstance(v, (bool, int)) else v for v in got} != {want} or any(k != 'return' for k, v in outs):
+            if len(bad) < 3:
+                bad.append({'case': case, 'outcomes': sorted(outs, key=str), 'spec': want})
+    ncase = len(cases)
     ctx.counters['abstract_cases'] += ncase
     margins_ok = 'lo' in roles and 'hi' in roles and roles['lo'][0] == roles['hi'][0] == 'self.cache_size' \
         and roles['lo'][1] < 0 and roles['hi'][1] == -roles['lo'][1]
-    ctx.emit('C07-R4', not bad and margins_ok, MOLECULE, last,
+    ctx.emit('C07-R4', not bad and margins_ok, MOLECULE, g,
              f'can_be_yielded: {ncase} orderings of (pos, spanStart-m, spanEnd+m) enumerated; ' +
-             ('predicate == pos < lo or pos > hi' if not bad else f'differs from spec on {bad[0]}') +
+             ('result == pos < lo or pos > hi' if not bad else f'differs from spec on {bad[0]}') +
              f'; margins {roles}', key='can_be_yielded:predicate', witness=bad[0] if bad else None)
     ctx.exhaustive['C07-R4'] = True
     # other-contig arm and None arm
-    arms = [s for s in g.body if isinstance(s, ast.If)]
-    sig = []
-    for s in arms:
-        r = s.body[0] if s.body and isinstance(s.body[0], ast.Return) else None
-        sig.append((src(s.test), src(r.value) if r is not None and r.value is not None else None))
-    ok_none = (f'{chrom} is None', 'False') in sig
-    ok_other = any(t in (f'{chrom} != self.chromosome', f'self.chromosome != {chrom}') and v == 'True' for t, v in sig)
-    ctx.emit('C07-R4', ok_none and ok_other, MOLECULE, g, f'can_be_yielded guards: {sig} (unknown position -> keep, other contig -> eject)',
+    one = [{'pos': 0, 'lo': 0, 'hi': 0}]
+    none_out = {o for c_, outs in outcomes_by_case(g.body, one, atom, facts={f'{chrom} is None': True}) for o in outs}
+    other_out = {o for c_, outs in outcomes_by_case(g.body, one, atom, facts={f'{chrom} is None': False, f'{chrom} != self.chromosome': True, f'self.chromosome != {chrom}': True,
+                                                                               f'{chrom} == self.chromosome': False, f'self.chromosome == {chrom}': False}) for o in outs}
+    ok_none = none_out == {('return', False)}
+    ok_other = other_out == {('return', True)}
+    ctx.emit('C07-R4', ok_none and ok_other, MOLECULE, g, f'can_be_yielded: unknown position -> {sorted(none_out, key=str)} (keep), other contig -> {sorted(other_out, key=str)} (eject)',
              key='can_be_yielded:guards')
-
-
-META = {
-    'text': ('Decides, for every path of MoleculeIterator.__iter__: the ejection loops remove exactly the molecules they '
-             'selected (index compensation is the linear form j - i over enumerate positions of the same container, in '
-             'both pooling modes); every fragment leaves one read-loop iteration by exactly one of {yielded as own '
-             'molecule, deleted, joined, new molecule} including the OverflowError edge; popped molecules are finalised '
-             'and yielded; both buffer kinds are drained after the input ends; the ejection predicate is exactly "other '
-             'contig or position outside [spanStart - m, spanEnd + m]" (all orderings enumerated) evaluated at the current '
-             'fragment. Does NOT decide that the margin suffices for the data at hand, nor equality of partitions across '
-             'schedules at runtime.'),
-    'technique': 'static analysis: linear-form check of removal indices, exception-aware path enumeration of the loop body with constant tracking, exhaustive ordering enumeration of the ejection predicate',
-    'design_ref': 'DESIGN.md section 5, C07',
-}
 
 
 @rule('C07', 'C07-R5', 'the span a molecule is ejected by is maintained on every accepted fragment: spanStart = min(old, '
